@@ -7,8 +7,8 @@ from ..core import open_findings
 ID = 'C04'
 LEVEL = 'exploration'
 ASSUMPTIONS = [
-    'domain: no tab, text does not end in a blank line, every blank line is empty (a whitespace-only line inside a fence makes '
-    '"indent every non-blank line" differ from the spec\'s basic case, spec ex. 129); list law additionally: first character is not a space',
+    'domain: no tab, text does not end in a blank line; list law additionally: first character is not a space and no whitespace-only line '
+    '(such a line inside a fence makes "indent every non-blank line" differ from the spec\'s basic case, spec ex. 129)',
     'quote marker ">" (without space) is only applied when no line starts with a space (the spec\'s marker (b) is ">" NOT followed by a space)',
     'list markers whose first embedded line would be a thematic break are excluded, as the specification resolves them the other way',
     'looseness flags and layout attributes of the synthetic wrapper are ignored; line numbers are set aside',
@@ -60,9 +60,11 @@ def in_domain(x):
     lines = body.split('\n')
     if lines[-1].strip() == '':
         return 'ends in blank line'
-    if any(l != '' and l.strip() == '' for l in lines):
-        return 'whitespace-only line'
     return None
+
+
+def has_ws_only_line(x):
+    return any(l != '' and l.strip() == '' for l in x.split('\n'))
 
 
 def parse(text, ts):
@@ -245,6 +247,11 @@ def check(ctx, x, source, markers=None):
         if x[0] in ' \n':
             ctx.count('skipped_by_filter', 'list law: first line blank or starting with a space')
             continue
+        if has_ws_only_line(x):
+            # "W spaces before every other NON-BLANK line" leaves whitespace-only lines alone, which differs from the spec's
+            # basic case inside code blocks (spec ex. 129): the list law is only stated for texts without such lines
+            ctx.count('skipped_by_filter', 'list law: whitespace-only line')
+            continue
         for marker in (markers or rng.sample(list_markers(rng), 3)):
             pad = rng.randint(1, 4)
             first = list_embed(x, marker, pad).split('\n')[0]
@@ -299,7 +306,9 @@ def run(ctx):
             kind, x = workloads.mixed(rng, 200)
             x = workloads.clean_lf(x).replace('\t', '  ')
             # bring more inputs into the domain: drop trailing blank lines, empty the whitespace-only lines
-            x = '\n'.join(l if l.strip() else '' for l in x.split('\n')).rstrip('\n') + '\n'
+            if rng.random() < 0.6:
+                x = '\n'.join(l if l.strip() else '' for l in x.split('\n'))
+            x = x.rstrip('\n') + '\n'
         check(ctx, x, kind)
         if k < 2:
             ctx.sample({'x': x, 'quoted': quote_embed(x, '> '), 'listed': list_embed(x, '1.', 2)})
